@@ -20,6 +20,9 @@ def vals(rng, shape, kind='any'):
     if kind == 'distinct':
         base = rng.sample(range(-40, 40), n) if n <= 80 else list(range(n))
         return [b / 8 for b in base]
+    if kind == 'ties':       # few distinct values: the extreme is usually attained several times
+        pool = rng.sample([-2.0, -0.5, 0.0, 0.5, 1.0, 3.0], rng.randint(1, 3))
+        return [rng.pick(pool) for _ in range(n)]
     if kind == 'prob':
         return [round(rng.uniform(0.05, 0.95), 3) for _ in range(n)]
     return gen_dag.rand_data(rng, shape)
@@ -117,9 +120,9 @@ def gen_basic(rng, op, malformed=False):
         if malformed: a = (n + 1, m + 2)
         return [L(a), L((n, k)), L((k, m))], []
     if op == 'pow':
-        e = rng.pick([2, 3, -1, 0.5, 1.5, -2, 1, 2.5, 4])
+        e = rng.pick([2, 3, -1, 0.5, 1.5, -2, 1, 2.5, 4, 0, 0, -0.0])      # exponent 0: the constant 1 with gradient 0 (on non-zero operands)
         s = rshape(rng)
-        return [L(s, 'pos' if (e != int(e) or e < 0) and rng.chance(.8) else ('pos' if e != int(e) else 'any'))], [fbits(float(e))]
+        return [L(s, 'pos' if e == 0 or ((e != int(e) or e < 0) and rng.chance(.8)) else ('pos' if e != int(e) else 'any'))], [fbits(float(e))]
     if op == 'rpow':
         return [L(rshape(rng))], [fbits(rng.pick([2.0, 0.5, 3.0, 2.718281828459045, 1.5]))]
     if op in ('neg', 'clone', 'exp'):
@@ -155,9 +158,9 @@ def gen_basic(rng, op, malformed=False):
     if op in ('max', 'min'):
         s = rshape(rng)
         ax = axes_arg(rng, len(s), allow_tuple=False)
-        d = '~' if ax == 'all' else ax[2:]
+        d = '~' if ax == 'all' or rng.chance(.25) else ax[2:]      # the global extreme (dim=None) has its own backward branch
         if malformed: d = str(len(s) + 1)
-        return [L(s, 'distinct' if rng.chance(.85) else 'any')], [d, int(rng.chance(.5))]
+        return [L(s, rng.pick(['distinct', 'distinct', 'distinct', 'ties', 'ties', 'any']))], [d, int(rng.chance(.5))]
     if op == 'squeeze':
         s = tuple(1 if rng.chance(.5) else n for n in rshape(rng))
         ax = axes_arg(rng, len(s))
@@ -244,6 +247,17 @@ def nonkink(rng, shape):
     return [v if abs(v) > 0.05 else 0.5 for v in vals(rng, shape)]
 
 
+def geom2(rng, malformed=False):
+    """two spatial axes; 40 % of the time the second axis takes the arguments (kernel, stride, padding, dilation) of the first, so that
+    the `int` spelling of the `int or tuple` arguments applies"""
+    H, kh, sh, ph, dh = geom1(rng, malformed)
+    W, kw, sw, pw, dw = geom1(rng)
+    if rng.chance(.4) and not malformed:
+        kw, sw, pw, dw = kh, sh, ph, dh
+        W = max(W, dw * (kw - 1) + 1 - 2 * pw, 1)
+    return (H, kh, sh, ph, dh), (W, kw, sw, pw, dw)
+
+
 def gen_nn(rng, op, malformed=False):
     L = lambda sh, data=None, rg=True: (sh, data if data is not None else vals(rng, sh), rg)
     if op in ('relu', 'selu'):
@@ -284,8 +298,7 @@ def gen_nn(rng, op, malformed=False):
         return [L((n, c, Ln), rg=rng.chance(.8)), L((co, c, k))] + ([L((co,))] if bias else []), [int(bias), s, p, d]
     if op == 'conv2d':
         n, c, co = rng.randint(1, 2), rng.randint(1, 2), rng.randint(1, 2)
-        H, kh, sh, ph, dh = geom1(rng, malformed)
-        W, kw, sw, pw, dw = geom1(rng)
+        (H, kh, sh, ph, dh), (W, kw, sw, pw, dw) = geom2(rng, malformed)
         bias = rng.chance(.6)
         return ([L((n, c, H, W), rg=rng.chance(.8)), L((co, c, kh, kw))] + ([L((co,))] if bias else []),
                 [int(bias), show_ints((sh, sw)), show_ints((ph, pw)), show_ints((dh, dw))])
@@ -299,20 +312,17 @@ def gen_nn(rng, op, malformed=False):
     if op in ('max_pool2d', 'avg_pool2d'):
         n, c = rng.randint(1, 2), rng.randint(1, 2)
         while True:
-            H, kh, sh_, ph, dh = geom1(rng, malformed)
-            W, kw, sw, pw, dw = geom1(rng)
+            (H, kh, sh_, ph, dh), (W, kw, sw, pw, dw) = geom2(rng, malformed)
             if malformed or (ph <= kh // 2 and pw <= kw // 2): break
         s4 = (n, c, H, W)
         return [L(s4, vals(rng, s4, 'distinct') if op.startswith('max') else None)], [show_ints((kh, kw)), show_ints((sh_, sw)), show_ints((ph, pw)), show_ints((dh, dw))]
     if op == 'unfold':
         n, c = rng.randint(1, 2), rng.randint(1, 2)
-        H, kh, sh_, ph, dh = geom1(rng, malformed)
-        W, kw, sw, pw, dw = geom1(rng)
+        (H, kh, sh_, ph, dh), (W, kw, sw, pw, dw) = geom2(rng, malformed)
         return [L((n, c, H, W))], [show_ints((kh, kw)), show_ints((dh, dw)), show_ints((sh_, sw)), show_ints((ph, pw)), fbits(rng.pick([0.0, 0.0, 1.5]))]
     if op == 'fold':
         n, c = rng.randint(1, 2), rng.randint(1, 2)
-        H, kh, sh_, ph, dh = geom1(rng)
-        W, kw, sw, pw, dw = geom1(rng)
+        (H, kh, sh_, ph, dh), (W, kw, sw, pw, dw) = geom2(rng)
         lh = (H + 2 * ph - dh * (kh - 1) - 1) // sh_ + 1
         lw = (W + 2 * pw - dw * (kw - 1) - 1) // sw + 1
         Lc = lh * lw + (1 if malformed else 0)
